@@ -265,6 +265,7 @@ type cascadeResult struct {
 	foreign      []string
 	dupErr       []string
 	finishes     int32
+	ownMon       bool   // the processor created the root monitor (AddEventAndWait(event, nil))
 	gid          uint64 // goroutine of the waiter
 	done         chan struct{}
 }
@@ -334,11 +335,16 @@ func runScenario(c *core.Ctx, stream string, idx int, s *script, noise uint64, n
 	for k := 0; k < s.cascades; k++ {
 		cr := &cascadeResult{idx: k, done: make(chan struct{})}
 		results[k] = cr
-		cr.rm = proc.NewRootMonitor(nil, nil)
-		cr.rm.SetFinishHandler(func(engine.Processor) { atomic.AddInt32(&cr.finishes, 1) })
-		rs.mu.Lock()
-		rs.mons = append(rs.mons, cr.rm)
-		rs.mu.Unlock()
+		// every fifth cascade lets the processor create the root monitor itself
+		// (AddEventAndWait(event, nil)); there is no finish handler to count then
+		cr.ownMon = k%5 == 4
+		if !cr.ownMon {
+			cr.rm = proc.NewRootMonitor(nil, nil)
+			cr.rm.SetFinishHandler(func(engine.Processor) { atomic.AddInt32(&cr.finishes, 1) })
+			rs.mu.Lock()
+			rs.mons = append(rs.mons, cr.rm)
+			rs.mu.Unlock()
+		}
 		go func(k int) {
 			defer close(cr.done)
 			atomic.StoreUint64(&cr.gid, sched.GoID())
@@ -346,6 +352,16 @@ func runScenario(c *core.Ctx, stream string, idx int, s *script, noise uint64, n
 			ev := engine.NewEvent("e", []string{"c02", kindName(s.rootKind[k])}, map[interface{}]interface{}{"path": name})
 			cr.mon, cr.err = proc.AddEventAndWait(ev, cr.rm)
 			cr.ret = tr.Stamp()
+			if cr.ownMon {
+				if cr.mon == nil {
+					cr.rm = proc.NewRootMonitor(nil, nil) // (reported below as a missing monitor)
+				} else {
+					cr.rm = cr.mon.RootMonitor()
+					rs.mu.Lock()
+					rs.mons = append(rs.mons, cr.rm)
+					rs.mu.Unlock()
+				}
+			}
 			// what a caller sees right after the wait returned
 			cr.errsAtReturn, cr.foreign, cr.dupErr = collectErrors(cr.rm, name)
 		}(k)
@@ -500,8 +516,11 @@ func runScenario(c *core.Ctx, stream string, idx int, s *script, noise uint64, n
 	}
 	proc.Finish()
 	for k, cr := range results {
-		if n := atomic.LoadInt32(&cr.finishes); n != 1 {
+		if n := atomic.LoadInt32(&cr.finishes); n != 1 && !cr.ownMon {
 			c.Violation(fmt.Sprintf("finish-handler-count:%d", min(int(n), 2)), fmt.Sprintf("finish handler of cascade c%d ran %d times", k, n), stream, idx, detail())
+		}
+		if cr.rm == nil {
+			continue
 		}
 		got, _, _ := collectErrors(cr.rm, fmt.Sprintf("c%d", k))
 		if len(setDiff(got, cr.errsAtReturn)) > 0 || len(setDiff(cr.errsAtReturn, got)) > 0 {
